@@ -5,11 +5,12 @@
 // program, the observed outcome and the sequential outcomes are the replay.
 //
 // Program classes:
-//   proved : Mkdir / exclusive create / Remove / Lstat on leaf names of directories nothing removes or renames — the
-//            calls covered by Avfs/Conc/Lin.lean (MemFS: two-phase theorem; OrefaFS Mkdir/Remove: one critical section).
-//            A failure here contradicts a theorem's tie to the code: VIOLATION with the program as failing input.
-//   known  : programs with Link / Symlink / Rename / RemoveAll / calls below a directory another call removes — recorded
-//            findings; a failure is reported under its class and matched with the ledger by bin/check.
+//
+//	proved : Mkdir / exclusive create / Remove / Lstat on leaf names of directories nothing removes or renames — the
+//	         calls covered by Avfs/Conc/Lin.lean (MemFS: two-phase theorem; OrefaFS Mkdir/Remove: one critical section).
+//	         A failure here contradicts a theorem's tie to the code: VIOLATION with the program as failing input.
+//	known  : programs with Link / Symlink / Rename / RemoveAll / calls below a directory another call removes — recorded
+//	         findings; a failure is reported under its class and matched with the ledger by bin/check.
 //
 // usage: lin -fs memfs|orefafs [-mode proved|known|all] [-rounds N] [-seed S] [-only kind,kind] [-prog "k:/p[:/q];…|…"]
 package main
